@@ -243,12 +243,23 @@ func sharedInfoEntry() *entry {
 				forms = append(forms, *p.build())
 			}
 			op := pick(g, "Hash", "AppendHash")
+			c.Sig("%s:%s:%d:%d:%d", typ, op, len(ids), len(feats), len(forms))
+			checkInfoHash(c, ids, feats, forms, op)
+		},
+	}
+}
+
+// checkInfoHash: Hash/AppendHash on an Info value must leave the caller's
+// slices, and every Info that shares them, encoding as before.
+func checkInfoHash(c *core.Case, ids []info.Identity, feats []info.Feature, forms []form.Data, op string) {
+	{
+		{
+			typ := "disco.Info(shared slices)"
 			smp := &aliasSample{Type: typ, Mode: "shared-slices", Operation: op}
 			c.Sample(smp)
 			c.Count("values", 1)
 			c.Count("values:"+typ, 1)
 			c.Count("alias_cases", 1)
-			c.Sig("%s:%s:%d:%d:%d", typ, op, len(ids), len(feats), len(forms))
 			a := disco.Info{Identity: ids, Features: feats, Form: forms}
 			b := disco.Info{Identity: ids, Features: feats, Form: forms} // the same slices
 			enc := func(i *disco.Info, what string) ([]byte, bool) {
@@ -315,7 +326,7 @@ func sharedInfoEntry() *entry {
 			if !bytes.Equal(snapIDs, nowIDs) || !bytes.Equal(snapFeats, nowFeats) || !valuesChanged {
 				violate(c, "codec:I:disco.Info:Hash:caller-slices-reordered", "%s on an Info VALUE reordered the caller's Identity/Features/Form slices in place: every Info sharing them (and the caller's own) encodes differently afterwards\nbefore: %s\nafter:  %s", op, qb(a0), qb(b1))
 			}
-		},
+		}
 	}
 }
 
